@@ -143,3 +143,32 @@ Proof.
     apply add_cancel; [ exact F3 | exact FQ2 | rewrite EQ2, E3; reflexivity ]. }
   split; [ exact Z | unfold inverseF; rewrite Z; reflexivity ].
 Qed.
+
+(* ---- columns 2 = 3 ---- *)
+Lemma add_zero_l (z p : f64) : is_finite p = true -> is_zero64 z = true ->
+  is_finite (add64 z p) = true /\ B2R (add64 z p) = B2R p.
+Proof.
+  intros Fp Hz. destruct (zero_B2R z Hz) as (Fz & Ez). unfold add64.
+  generalize (Bplus_correct 53 1024 P53 PE1024 mode_NE z p Fz Fp). rewrite Ez, Rplus_0_l.
+  simpl round_mode. rewrite round_generic by (auto with typeclass_instances; apply generic_format_B2R).
+  rewrite Rlt_bool_true by apply abs_B2R_lt. intros (H1 & H2 & _). auto.
+Qed.
+(* second and third columns coincide *)
+Theorem det_repeated_last_float (a b : vecF) :
+  let U := sub64 (mul64 (v1 b) (v2 a)) (mul64 (v1 a) (v2 b)) in
+  is_finite (v0 a) = true -> is_finite (v0 b) = true ->
+  is_finite U = true -> is_finite (mul64 (v0 a) U) = true -> is_finite (mul64 (v1 a) (v2 a)) = true ->
+  is_zero64 (detF (M b a a)) = true /\ inverseF (M b a a) = None.
+Proof.
+  intros U Fa Fb FU FP FQ.
+  assert (Z : is_zero64 (detF (M b a a)) = true).
+  { unfold detF, detG, adjG. cbn [v0 v1 v2 c0 c1 c2]. fold U.
+    assert (FN : is_finite (neg64 U) = true) by (unfold neg64; rewrite is_finite_Bopp; exact FU).
+    assert (EN : B2R (neg64 U) = - B2R U) by (unfold neg64; apply B2R_Bopp).
+    destruct (mul_opp_B2R (v0 a) U (neg64 U) Fa FU FN EN FP) as (FQ2 & EQ2).
+    assert (Hz : is_zero64 (mul64 (v0 b) (sub64 (mul64 (v1 a) (v2 a)) (mul64 (v1 a) (v2 a)))) = true).
+    { apply mul_zero_is_zero; [ assumption | apply sub_self_is_zero; assumption ]. }
+    destruct (add_zero_l _ _ FQ2 Hz) as (F3 & E3).
+    apply add_cancel; [ exact F3 | exact FP | rewrite E3, EQ2; ring ]. }
+  split; [ exact Z | unfold inverseF; rewrite Z; reflexivity ].
+Qed.
